@@ -245,6 +245,7 @@ type mutBind struct {
 	pair   string
 	target string
 	args   []string
+	local  bool // upd form keyed by a package-level function of the translated package itself (a plain identifier)
 }
 
 // mutBind.upd (general form, also for methods: key "M:<receiver type>.<method>", mut = -1): pointee type of the mutated
@@ -2866,6 +2867,13 @@ func (x *xlat) mutCall(n *ast.AssignStmt, call *ast.CallExpr, mb mutBind, cur []
 // mutBindOf: the binding of a call that mutates what one of its arguments (or its receiver) points to
 func (x *xlat) mutBindOf(call *ast.CallExpr) (mutBind, bool) {
 	if mb, ok := mutBinds[exprString(call.Fun)]; ok {
+		if mb.upd != nil && mb.local {
+			// a package-level function of the translated package: the identifier must not be a local variable / parameter
+			if id, ok := call.Fun.(*ast.Ident); !ok || (id.Obj != nil && id.Obj.Kind != ast.Fun) {
+				return mutBind{}, false
+			}
+			return mb, true
+		}
 		if mb.upd != nil {
 			// a function of another package: the qualifier must be the package, not a local variable of that name
 			sel, ok := call.Fun.(*ast.SelectorExpr)
